@@ -87,6 +87,7 @@ func (s *Stats) Merge(o *Stats) {
 type Found struct {
 	V      *common.Violation
 	Events []sim.Event
+	Leaf   bool // reported by the suite's Leaf oracle (continuation) at the end of the path
 }
 
 type frame struct {
@@ -275,7 +276,7 @@ func (d *DFS) Run(prefix []sim.Event) {
 						if os.Getenv("VERIF_LEAFDUMP") != "" {
 							fmt.Fprintf(os.Stderr, "LEAFDUMP %v\n%s\n", path(), x.C.Dump())
 						}
-						d.found(v, path())
+						d.foundLeaf(v, path())
 					}
 					if len(evs) > 0 {
 						// the continuation consumed the execution: restore the state
@@ -357,6 +358,12 @@ func (d *DFS) step(x *Exec, p []sim.Event) bool {
 		return !prune
 	}
 	return true
+}
+
+func (d *DFS) foundLeaf(v *common.Violation, p []sim.Event) {
+	if d.OnFound != nil && d.OnFound(&Found{V: v, Events: append([]sim.Event(nil), p...), Leaf: true}) {
+		d.stop = true
+	}
 }
 
 func (d *DFS) found(v *common.Violation, p []sim.Event) {
